@@ -160,6 +160,8 @@ def run(rep, ctx, tier):
         if b is not None:
             R5.check_not_positional(rep, ctx, "R5p", "%s.trim" % sk, b, S[sk]["adt"], T.ROLES["trim"]["enforced_degree_bounds"],
                                     "enforced degree bounds")
+            R5.check_unfiltered(rep, ctx, "R5f", "%s.trim" % sk, b, S[sk]["adt"], T.ROLES["trim"]["enforced_degree_bounds"],
+                                "enforced degree bounds")
     for key, find, req in (("multilinear.setup", dict(name="setup", self_adt=ML, trait=""), [1]),
                            ("multilinear.trim", dict(name="trim", self_adt=ML, trait=""), [1, 2])):
         b = f.find1(**find)
